@@ -3,10 +3,13 @@
 package core
 
 import (
+	"context"
 	"encoding/json"
 	"fmt"
 	"os"
+	"os/exec"
 	"path/filepath"
+	"regexp"
 	"sort"
 	"strconv"
 	"strings"
@@ -272,3 +275,32 @@ func tail(s string, n int) string {
 
 // Tail exposes tail for drivers.
 func Tail(s string, n int) string { return tail(s, n) }
+
+// Prove runs tlapm on a module of the spec directory in a scratch copy and records obligations / discharged. A proof
+// that does not go through is machinery trouble (exit 2): it is a statement about the specification, not about emitter.
+func (c *Ctx) Prove(module string) {
+	dir, err := os.MkdirTemp("", "vtlapm-")
+	if err != nil {
+		Fatalf("tempdir: %v", err)
+	}
+	defer os.RemoveAll(dir)
+	b, err := os.ReadFile(filepath.Join(SpecDir(), module+".tla"))
+	if err != nil {
+		Fatalf("%s: %v", module, err)
+	}
+	os.WriteFile(filepath.Join(dir, module+".tla"), b, 0o644)
+	ctx, cancel := context.WithTimeout(context.Background(), 5*time.Minute)
+	defer cancel()
+	cmd := exec.CommandContext(ctx, "tlapm", "--threads", "8", module+".tla")
+	cmd.Dir = dir
+	out, _ := cmd.CombinedOutput()
+	m := regexp.MustCompile(`All (\d+) obligations? proved`).FindStringSubmatch(string(out))
+	if m == nil {
+		Fatalf("tlapm %s did not prove everything:\n%s", module, tail(string(out), 2000))
+	}
+	n, _ := strconv.ParseInt(m[1], 10, 64)
+	c.Add("obligations", n)
+	c.Add("discharged", n)
+	c.Set("checker_cmd", "tlapm --threads 8 "+module+".tla")
+	Logf("tlapm %s: all %d obligations proved", module, n)
+}
